@@ -248,11 +248,13 @@ def verify_function(qualname: str, timeout_ms=20000, cross_check=False, only=Non
             if missing:
                 raise Unsupported(f"sidecar names loop/comprehension ordinals {missing} that the source no longer has")
             env = symbolic_params(c, it, fixed)
+            it.ghosts = [env[g] for g in c.ghost]
             st = State(env)
             for g, gexpr in c.where.items():
                 st.env[g] = it.ev_contract_expr(gexpr, st)
             for r in c.requires:
                 it.assume(st, it.ev_contract_expr(r, st))
+            st.assumed = set()
             spec_env = dict(st.env)
             entry_pc = list(st.pc)
             # drop docstring
@@ -274,6 +276,7 @@ def verify_function(qualname: str, timeout_ms=20000, cross_check=False, only=Non
                             est.env[pk] = pv
                     for ename, e in c.ensures.items():
                         try:
+                            it._assuming.add(c.qualname)
                             g = it.ev_contract_expr(e, est)
                         except NeedFork:
                             raise Unsupported(f"ensures {ename}: condition needs a case split")
@@ -288,7 +291,7 @@ def verify_function(qualname: str, timeout_ms=20000, cross_check=False, only=Non
                     est = State(dict(spec_env), o.st.pc, o.st.decisions)
                     if allowed is None:
                         it.oblige(f"raises.{exc.cls}.unexpected{tag}#p{pi}", o.st, z3.BoolVal(False), "raises", fi.node.lineno)
-                    else:
+                    elif allowed[1] != "maybe":
                         g = it.ev_contract_expr(allowed[1], est)
                         it.oblige(f"raises.{allowed[0]}.allowed{tag}#p{pi}", o.st, g, "raises", fi.node.lineno)
                 else:
